@@ -166,6 +166,61 @@ theorem defaultName_not_fixed (j : Nat) : defaultName j ∉ fixedLocals := by
   have : defaultName j = '_' :: 'd' :: 'e' :: 'f' :: 'a' :: 'u' :: 'l' :: 't' :: '_' :: dec j := by unfold defaultName; rfl
   rw [this]; simp [fixedLocals, params]
 
+/-! ### decimal numerals are injective: different fields get different `_skip_<i>` -/
+
+/-- value of a digit string -/
+def undec (s : S) : Nat := s.foldl (fun a c => a * 10 + (c.toNat - 48)) 0
+
+theorem digit_val : ∀ k : Fin 10, (Char.ofNat (48 + k.val)).toNat - 48 = k.val := by decide
+
+theorem undec_append (a b : S) : undec (a ++ b) = b.foldl (fun a c => a * 10 + (c.toNat - 48)) (undec a) := by
+  simp [undec, List.foldl_append]
+
+theorem decAux_val : ∀ (fuel n : Nat) (acc : S), n < 10 ^ fuel → 0 < fuel →
+    ∃ ds, decAux fuel n acc = ds ++ acc ∧ undec ds = n := by
+  intro fuel
+  induction fuel with
+  | zero => intro n acc _ h; omega
+  | succ f ih =>
+    intro n acc hn _
+    have hd : (Char.ofNat (48 + n % 10)).toNat - 48 = n % 10 := digit_val ⟨n % 10, Nat.mod_lt _ (by omega)⟩
+    unfold decAux
+    by_cases h : n / 10 = 0
+    · simp only [h, if_true]
+      refine ⟨[Char.ofNat (48 + n % 10)], by simp, ?_⟩
+      simp [undec, hd]; omega
+    · simp only [h, if_false]
+      have hf : 0 < f := by
+        rcases f with _ | f
+        · simp at hn; omega
+        · omega
+      have hlt : n / 10 < 10 ^ f := by
+        rw [Nat.pow_succ] at hn
+        exact Nat.div_lt_of_lt_mul (by omega)
+      obtain ⟨ds, h1, h2⟩ := ih (n / 10) (Char.ofNat (48 + n % 10) :: acc) hlt hf
+      refine ⟨ds ++ [Char.ofNat (48 + n % 10)], by simp [h1], ?_⟩
+      rw [undec_append]
+      simp [h2, hd]; omega
+
+theorem lt_pow_succ (n : Nat) : n < 10 ^ (n + 1) := by
+  have : n < 2 ^ n := Nat.lt_two_pow_self
+  calc n < 2 ^ n := this
+    _ ≤ 10 ^ n := Nat.pow_le_pow_left (by omega) n
+    _ ≤ 10 ^ (n + 1) := Nat.pow_le_pow_right (by omega) (by omega)
+
+theorem undec_dec (n : Nat) : undec (dec n) = n := by
+  obtain ⟨ds, h1, h2⟩ := decAux_val (n + 1) n [] (lt_pow_succ n) (by omega)
+  have : dec n = ds := by unfold dec; simpa using h1
+  rw [this]; exact h2
+
+theorem dec_injective (i j : Nat) (h : dec i = dec j) : i = j := by
+  have := congrArg undec h
+  rwa [undec_dec, undec_dec] at this
+
+theorem skipName_injective (i j : Nat) (h : skipName i = skipName j) : i = j := by
+  unfold skipName at h
+  exact dec_injective i j (List.append_cancel_left h)
+
 /-! ### the names the body binds -/
 
 theorem skipTargets_writes : ∀ (fs : List GField) (i : Nat) (n : S),
@@ -243,7 +298,8 @@ theorem body_writes (p : Char → Bool) (g : GIn) (n : S) (h : n ∈ (genBody p 
           simp only [Simple.writes] at h
           exact skipTargets_writes _ _ n h
         · right; exact excludeAssigns_writes p _ _ n h
-      · split at h
+      · unfold sdBlock at h
+        split at h
         · simp at h
         · next ls hls =>
           right
@@ -255,7 +311,8 @@ theorem body_writes (p : Char → Bool) (g : GIn) (n : S) (h : n ∈ (genBody p 
     · simp [L2.writes, L1.writes, L0.writes, Simple.writes, Target.writes] at h
       left; simp [fixedLocals, h]
     · simp at h
-  · split at h
+  · unfold tailStmts at h
+    split at h
     · simp [L2.writes, L1.writes, L0.writes, Simple.writes, Target.writes] at h
       left; simp [fixedLocals, h]
     · simp [L2.writes, L1.writes, L0.writes, Simple.writes] at h
@@ -593,7 +650,7 @@ theorem skipDefaultLines_ok (p : Char → Bool) (g : GIn) (sc : Scope)
               · exact oAttr_reads sc asg hb f.name x h
               · rw [h]; exact (hsdv c hm hbnd).read asg
               · rw [h]; exact hb.ellipsis
-          simp only [L1.check, L0.check, checkSimples]
+          simp only [L1.check, L0.check, checkSimples, sdRhs, hm]
           rw [if_pos hr]; rfl
         | none =>
           have hr : sc.readsOk asg (Simple.assign false [Target.name (skipName i)]
@@ -609,7 +666,7 @@ theorem skipDefaultLines_ok (p : Char → Bool) (g : GIn) (sc : Scope)
             · rw [hx]
               refine (hloc (defaultName i) ?_).read asg
               simp [fieldsLocals, fieldLocals, hd, hm]
-          simp only [L1.check, L0.check, checkSimples]
+          simp only [L1.check, L0.check, checkSimples, sdRhs, hm]
           rw [if_pos hr]; rfl
       · simp [hd] at hs
     · refine skipDefaultLines_ok p g sc hsdv r (i + 1) asg hb ?_ ?_ s hs
@@ -853,6 +910,7 @@ theorem genBody_ok (p : Char → Bool) (g : GIn) :
               refine checkL2s_of_all (genScope p g) (Inv g) (Inv_upward g) _ b ?_ hb
               intro x hx c hc
               obtain ⟨hbase, hskb, _⟩ := rest_ok p g c hc
+              unfold sdBlock at hx
               split at hx
               · simp at hx
               · simp only [List.mem_singleton] at hx
@@ -910,6 +968,7 @@ theorem genBody_ok (p : Char → Bool) (g : GIn) :
         rcases hy with hy | hy
         · rw [hy]; exact hb.dictFactory
         · rw [hy]; exact hb.result
+      unfold tailStmts
       cases ht : g.tagOn with
       | none =>
         have hr : (genScope p g).readsOk a (Simple.ret (Expr.call1 (nm "dict_factory") (nm "result"))).reads = true := by
@@ -926,16 +985,16 @@ theorem genBody_ok (p : Char → Bool) (g : GIn) :
             (Expr.call1 (nm "dict_factory") (nm "result"))).writes ++ a) := hbase.mono (fun x hx => List.mem_append_right _ hx)
         have hr2 : (genScope p g).readsOk ((Simple.assign false [Target.name "result".toList]
             (Expr.call1 (nm "dict_factory") (nm "result"))).writes ++ a)
-            (Simple.assign false [Target.item "result".toList [pyRepr p g.effTagKey]] (Expr.lit (.str t))).reads = true := by
+            (Simple.assign false [Target.item "result".toList [LitV.str g.effTagKey]] (Expr.lit (.str t))).reads = true := by
           rw [readsOk_iff]; intro y hy
           simp only [Simple.reads, Expr.reads, Target.reads, List.flatMap_cons, List.flatMap_nil, List.append_nil,
             List.nil_append, List.mem_singleton] at hy
           rw [hy]; exact hb1.result
         have c2 := line1_check (genScope p g) _ _ "; ".toList hr2
-        have hb2 := hb1.mono (b := (Simple.assign false [Target.item "result".toList [pyRepr p g.effTagKey]] (Expr.lit (.str t))).writes ++
+        have hb2 := hb1.mono (b := (Simple.assign false [Target.item "result".toList [LitV.str g.effTagKey]] (Expr.lit (.str t))).writes ++
           ((Simple.assign false [Target.name "result".toList] (Expr.call1 (nm "dict_factory") (nm "result"))).writes ++ a))
           (fun x hx => List.mem_append_right _ hx)
-        have hr3 : (genScope p g).readsOk ((Simple.assign false [Target.item "result".toList [pyRepr p g.effTagKey]] (Expr.lit (.str t))).writes ++
+        have hr3 : (genScope p g).readsOk ((Simple.assign false [Target.item "result".toList [LitV.str g.effTagKey]] (Expr.lit (.str t))).writes ++
             ((Simple.assign false [Target.name "result".toList] (Expr.call1 (nm "dict_factory") (nm "result"))).writes ++ a))
             (Simple.ret (nm "result")).reads = true := by
           rw [readsOk_iff]; intro y hy
